@@ -14,6 +14,7 @@ mod lib_build;
 mod monitors;
 mod refmodel;
 mod rng;
+mod train;
 
 use crate::core::*;
 use crate::json::J;
@@ -54,7 +55,9 @@ fn main() {
             }
         }
     }
-    std::panic::set_hook(Box::new(|_| {}));
+    if std::env::var("NV_PANICS").is_err() {
+        std::panic::set_hook(Box::new(|_| {}));
+    }
     let seed: u64 = std::env::var("VERIF_SEED").ok().and_then(|s| s.trim().parse().ok()).unwrap_or(1);
 
     if let Some(path) = replay {
